@@ -79,6 +79,20 @@ def same_result(a, b):
     return a.shape == b.shape and bool(np.array_equal(a, b, equal_nan=(a.dtype.kind == 'f' and b.dtype.kind == 'f')))
 
 
+def unit_scale(rng, lo, hi, ordinary):
+    """per-case scale ("units") factor: a third of the cases log-uniform over 10**lo .. 10**hi, else the ordinary range"""
+    if rng.random() < 1.0 / 3.0:
+        return 10.0 ** rng.uniform(lo, hi)
+    return ordinary()
+
+
+def amplitude(a):
+    """typical magnitude of the finite non-zero values of a (0.0 if none)"""
+    a = np.abs(np.asarray(a, dtype=np.float64)).ravel()
+    a = a[np.isfinite(a) & (a > 0) & (a < 1e299)]
+    return float(np.median(a)) if a.size else 0.0
+
+
 def prod(shape):
     n = 1
     for s in shape:
@@ -169,6 +183,10 @@ class C17(Check):
             'aesthetics: 1-3 methods on one flux/invvar; median: 1-2 widths on one array; skymask: 1-3 ngrow on one invvar/ormask), '
             'every step compared with the reference computed from the ORIGINAL values, and a byte copy of every argument array is '
             'compared after each call.  '
+            'Units: a third of the cases carry a log-uniform unit factor - sigma 1e-6..1e6 / invvar 1e-12..1e12 (reject, with data, '
+            'model, maxdev in the same unit), invvar 1e-12..1e12 with noisy stretches down to 1e-22 and exact zeros kept (aesthetics, '
+            'skymask), flux amplitude 1e-17..1e6 (maskinterp y, aesthetics flux, median values), x spacing 1e-9..1e9; all oracles are '
+            'relative to the data scale.  '
             'Every scalar option is presented per call in one of the scalar kinds a caller has (Python value; numpy int64/int32/'
             'uint8/intp scalar; 0-d array; whole float / numpy.float64 for axis and ngrow; bool / numpy.bool_ / 0-1 int for const and '
             'sticky; float / numpy.float64 / 0-d array / numpy.int64 for lower, upper, maxdev; str / numpy.str_ for method and '
@@ -212,6 +230,13 @@ class C17(Check):
         'interp_history_steps_on_same_array', 'interp_history_steps_nd', 'aesthetics_history_steps_on_same_array',
         'median_history_steps_on_same_array', 'skymask_history_steps_on_same_array',
         'scalar_kind_calls_compared_with_plain_call',
+        'reject_invvar_below_1e-8_points', 'reject_invvar_above_1e8_points', 'reject_sigma_below_1e-4_cases',
+        'reject_sigma_above_1e4_cases', 'interp_y_amp_below_1e-10_cases', 'interp_y_amp_above_1e4_cases',
+        'interp_x_spacing_below_1e-6_cases', 'interp_x_spacing_above_1e6_cases',
+        'aesthetics_good_pixels_invvar_below_1e-8', 'aesthetics_good_pixels_invvar_above_1e8',
+        'aesthetics_flux_amp_below_1e-10_cases', 'aesthetics_flux_amp_above_1e4_cases',
+        'median_amp_below_1e-10_cases', 'median_amp_above_1e4_cases',
+        'skymask_invvar_below_1e-8_pixels', 'skymask_invvar_above_1e8_pixels',
     ) + KIND_COUNTERS
 
     # ---------------------------------------------------------------- setup
@@ -292,7 +317,8 @@ class C17(Check):
         else:
             shape = [rng.choice([1, 2, 3, 5, 8, 17, 40, 100, 200])]
         n = prod(shape)
-        scale = 10.0 ** rng.uniform(-2, 3) if rng.random() < 0.5 else 1.0
+        # units: sigma 1e-6 .. 1e6 (invvar 1e-12 .. 1e12); data, model and maxdev carry the same unit
+        scale = unit_scale(rng, -6, 6, lambda: 10.0 ** rng.uniform(-2, 3) if rng.random() < 0.5 else 1.0)
         mode = rng.choice(['sigma', 'sigma', 'invvar', 'invvar', 'none', 'sigma_scalar', 'both'])
         sig = g.uniform(0.5, 2.0, n) * scale
         if mode == 'sigma_scalar':
@@ -391,7 +417,7 @@ class C17(Check):
         nd = len(shape)
         axis = None if nd == 1 else rng.randrange(nd)
         npaxis = 0 if nd == 1 else nd - 1 - axis
-        scale = 10.0 ** rng.uniform(-3, 4) if rng.random() < 0.5 else 1.0
+        scale = unit_scale(rng, -17, 6, lambda: 10.0 ** rng.uniform(-3, 4) if rng.random() < 0.5 else 1.0)   # flux units
         y = g.normal(size=n) * scale + rng.choice([0.0, 0.0, 100.0 * scale])
         if rng.random() < 0.2:
             y = np.round(y / scale)                     # ties, exact zeros
@@ -429,7 +455,7 @@ class C17(Check):
         xorder = None
         if rng.random() < 0.5:
             xorder = rng.choice(['asc', 'desc', 'shuffled', 'shuffled', 'asc_uneven'])
-            xs = 10.0 ** rng.uniform(-3, 3)
+            xs = unit_scale(rng, -9, 9, lambda: 10.0 ** rng.uniform(-3, 3))                  # x units (spacing)
             xa = (g.normal(size=n) * xs + rng.choice([0.0, 1000.0 * xs])).reshape(shape)
             if xorder == 'asc_uneven':
                 xa = np.cumsum(10.0 ** g.uniform(-3, 1, size=n)).reshape(shape) * xs
@@ -452,20 +478,24 @@ class C17(Check):
     def gen_aesthetics(self, rng):
         g = np_rng(rng)
         n = rng.choice([1, 2, 3, 5, 10, 30, 100, 300])
-        flux = g.normal(size=n) * 10.0 ** rng.uniform(-2, 3) + rng.choice([0.0, 50.0])
+        fs = unit_scale(rng, -17, 6, lambda: 10.0 ** rng.uniform(-2, 3))                          # flux units
+        flux = g.normal(size=n) * fs + rng.choice([0.0, 50.0, 50.0 * fs])
         bad = mask_pattern(rng, n)
         if all(bad):
             bad[rng.randrange(n)] = False                # at least one good pixel (F-C3 is out of this domain)
-        ivar = g.uniform(0.01, 5.0, n) * 10.0 ** rng.uniform(-3, 3)
+        ivar = g.uniform(0.01, 5.0, n) * unit_scale(rng, -12, 12, lambda: 10.0 ** rng.uniform(-3, 3))   # 1/flux^2 units
+        if rng.random() < 0.25 and n > 2:                # a very noisy stretch: tiny but non-zero inverse variance
+            a0 = rng.randrange(n)
+            ivar[a0:a0 + rng.randint(1, max(1, n // 3))] *= 10.0 ** rng.uniform(-10, -2)
         for k in range(n):
             if bad[k]:
-                ivar[k] = 0.0
+                ivar[k] = 0.0                            # exact zeros stay exact zeros
                 if rng.random() < 0.3:
                     flux[k] = rng.choice(GARBAGE)
         dt = rng.choice(['float64', 'float64', 'float32'])
         if dt == 'float32':
             flux = flux.astype(np.float32).astype(np.float64)
-            ivar = ivar.astype(np.float32).astype(np.float64)
+            ivar = np.maximum(ivar, np.where(ivar > 0, 1e-30, 0.0)).astype(np.float32).astype(np.float64)   # no underflow to 0
         return {'kind': 'aesthetics', 'flux': flux.tolist(), 'invvar': ivar.tolist(), 'dtype': dt,
                 'method': rng.choice(['traditional', 'noconst', 'mean', 'nothing']),
                 'more': [rng.choice(['traditional', 'noconst', 'mean', 'nothing']) for _ in range(rng.choice([0, 1, 2]))],
@@ -496,6 +526,8 @@ class C17(Check):
         dt = 'float64'
         if cls == 'median_1d' and style == 'ties' and rng.random() < 0.3:
             dt = 'int64'
+        else:
+            a = a * unit_scale(rng, -17, 6, lambda: 1.0)                                          # flux units
         wmax = 2 * min(shape) - 1                       # widest window one reflection can fill
         more = [rng.choice([v for v in (1, 3, 5, 7, 9, 11, 13) if v <= wmax]) for _ in range(rng.choice([0, 1, 1]))]
         return {'kind': 'median', 'shape': shape, 'a': a.tolist(), 'width': w, 'dtype': dt, 'more': more,
@@ -549,7 +581,11 @@ class C17(Check):
                         v |= (1 << 63) | (rng.getrandbits(31) << 32)
                 assert lo <= v <= hi
                 mask[r][c] = v
-        ivar = g.uniform(0.05, 4.0, (nr, npx)) * 10.0 ** rng.uniform(-3, 3)
+        ivar = g.uniform(0.05, 4.0, (nr, npx)) * unit_scale(rng, -12, 12, lambda: 10.0 ** rng.uniform(-3, 3))
+        if rng.random() < 0.25:                          # a noisy row segment: tiny but non-zero inverse variance
+            r0 = rng.randrange(nr)
+            c0 = rng.randrange(npx)
+            ivar[r0, c0:c0 + rng.randint(1, max(1, npx // 2))] *= 10.0 ** rng.uniform(-10, -2)
         ivar[g.uniform(size=(nr, npx)) < 0.05] = 0.0
         return {'kind': 'skymask', 'shape': [nr, npx], 'ivar': ivar.ravel().tolist(), 'mask': mask, 'dtype': dt,
                 'ngrow': ngrow, 'ormask_none': rng.random() < 0.04,
@@ -689,6 +725,14 @@ class C17(Check):
             out.count('reject_near_limit_decided', self._near_count(data0, model0, sigma0, invvar0, case) - ref['n_near'])
             if invvar0 is not None and sigma0 is None:
                 out.count('reject_invvar_zero_points', int((invvar0 == 0).sum()))
+                out.count('reject_invvar_below_1e-8_points', int(((invvar0 > 0) & (invvar0 < 1e-8)).sum()))
+                out.count('reject_invvar_above_1e8_points', int((invvar0 > 1e8).sum()))
+            if sigma0 is not None and step == 0:
+                sa = amplitude(sigma0)
+                if 0 < sa < 1e-4:
+                    out.count('reject_sigma_below_1e-4_cases')
+                if sa > 1e4:
+                    out.count('reject_sigma_above_1e4_cases')
             if prev is not None:
                 prej = ~(prev != 0)
                 if sticky and prej.any():
@@ -736,6 +780,17 @@ class C17(Check):
         steps = [{'mask': case['mask'], 'axis': case['axis'], 'const': case['const'], 'axis_kind': case.get('axis_kind', 'py'),
                   'const_kind': case.get('const_kind', 'py')}] + list(case.get('more', []))
         nontrivial = False
+        ya = amplitude(y0)
+        if 0 < ya < 1e-10:
+            out.count('interp_y_amp_below_1e-10_cases')
+        if ya > 1e4:
+            out.count('interp_y_amp_above_1e4_cases')
+        if x0 is not None and x0.size > 1:
+            sp = amplitude(np.diff(np.sort(x0.ravel())))
+            if 0 < sp < 1e-6:
+                out.count('interp_x_spacing_below_1e-6_cases')
+            if sp > 1e6:
+                out.count('interp_x_spacing_above_1e6_cases')
         for step, st in enumerate(steps):
             m0 = np.array(st['mask']).reshape(shape).astype(case['mask_dtype'])
             if step:
@@ -854,6 +909,13 @@ class C17(Check):
         flux, ivar = f_in.copy(), iv_in.copy()                               # the caller's arrays, used by every call
         good = iv_in != 0
         b = f_in[good].astype(np.float64)
+        out.count('aesthetics_good_pixels_invvar_below_1e-8', int((good & (np.abs(iv_in) <= 1e-8)).sum()))
+        out.count('aesthetics_good_pixels_invvar_above_1e8', int((iv_in > 1e8).sum()))
+        fa = amplitude(f_in)
+        if 0 < fa < 1e-10:
+            out.count('aesthetics_flux_amp_below_1e-10_cases')
+        if fa > 1e4:
+            out.count('aesthetics_flux_amp_above_1e4_cases')
         for step, method in enumerate([case['method']] + list(case.get('more', []))):
             # the property allows flux to change where invvar == 0, so only the other pixels of the caller's flux are guarded
             guard = Guard(out, 'aesthetics').add('flux', flux, only=good).add('invvar', ivar)
@@ -887,6 +949,11 @@ class C17(Check):
         a_in = np.array(case['a'], dtype=np.float64).reshape(shape).astype(case['dtype'])     # pristine
         a = a_in.copy()                                                                        # the caller's array
         nontrivial = False
+        ma = amplitude(a_in)
+        if 0 < ma < 1e-10:
+            out.count('median_amp_below_1e-10_cases')
+        if ma > 1e4:
+            out.count('median_amp_above_1e4_cases')
         for step, w in enumerate([case['width']] + list(case.get('more', []))):
             guard = Guard(out, 'median').add('array', a)
             kl = case.get('kinds') or []
@@ -939,6 +1006,8 @@ class C17(Check):
         ivar, om = iv_in.copy(), om_in.copy()                                # the caller's arrays, used by every call
         F = (1 << BADSKYCHI) | (1 << REDMONSTER)
         nontrivial = False
+        out.count('skymask_invvar_below_1e-8_pixels', int(((iv_in > 0) & (iv_in < 1e-8)).sum()))
+        out.count('skymask_invvar_above_1e8_pixels', int((iv_in > 1e8).sum()))
         steps = [{'ngrow': case['ngrow'], 'ormask_none': case['ormask_none'], 'ngrow_kind': case.get('ngrow_kind', 'py')}] \
             + list(case.get('more', []))
         for step, st in enumerate(steps):
